@@ -89,6 +89,15 @@ def build_files(tree, labels, root, style, early):
             lines.append(line)
         if early == name:
             lines.append('return')
+        if style == 'in-function' and name == 'n0' and kids:
+            # the root's includes sit inside a function body: included scripts still run in GLOBAL scope
+            inc = lines[2:]
+            lines = lines[:2] + ["pa = 'global-pa'", 'function hh(pa):', "    lv = 'local'"] + ['    ' + ln for ln in inc] + \
+                ["    systemLog('hh-lv=' + lv + ' pa=' + pa)", 'endfunction', "hh('arg')", "systemLog('lv-global=' + lv)"]
+        elif style == 'in-function' and name != 'n0':
+            # a child reads and writes names that are locals of the including function
+            lines.append("systemLog('" + name + "-sees pa=' + pa + ' lv=' + lv)")
+            lines.append("lv = 'set-by-" + name + "'")
         lines.append(f"systemLog('{name}-out')")
         text = '\n'.join(lines) + '\n'
         if loc is not None or name != 'n0':
@@ -153,7 +162,7 @@ def run_case(tree, labels, root, style, early, prefix, which):
             res = ('raise', type(exc).__name__, str(exc), None)
         if tape.error:
             raise HarnessError('implementation diverged from its recorded prefix: ' + tape.error)
-        user = {k: canon(v) for k, v in glob.items() if k.startswith('g_')}
+        user = {k: canon(v) for k, v in glob.items() if k.startswith('g_') or k in ('lv', 'pa')}
     else:
         class RefSyntax(Exception):
             def __init__(self, url, line):
@@ -172,6 +181,7 @@ def run_case(tree, labels, root, style, early, prefix, which):
 
         glob = {}
         m = jumpvm.Machine(glob, {}, logs, limit=2000, lib=jumpvm.lib_basic(), loader=loader, resolver=urls.resolve, system_prefix=root['sys'])
+        m.base = root['base']      # includes inside a function body of the root resolve against the root's own location
         try:
             model = bs.parse_script(root_text)
             res = ('ok', canon(m.run(model['statements'], None, root['base'])))
@@ -179,7 +189,7 @@ def run_case(tree, labels, root, style, early, prefix, which):
             res = ('raise', 'BareScriptRuntimeError', quoted_locations(str(exc)), None)
         except RefSyntax as exc:
             res = ('raise', 'BareScriptParserError', [urls.normalize(exc.url)], exc.line)
-        user = {k: canon(v) for k, v in glob.items() if k.startswith('g_')}
+        user = {k: canon(v) for k, v in glob.items() if k.startswith('g_') or k in ('lv', 'pa')}
     return {'result': res, 'logs': logs, 'globals': user, 'fetches': fetched, 'points': tape.points}
 
 
@@ -264,6 +274,8 @@ def plan(tier):
             (trees(3, 1), FORMS, 1, ('adjacent',), True),                 # chains to depth 3, all six forms
             (trees(2, 2), ('sib', 'up', 'sys'), 1, ('adjacent', 'separated'), False),
             (trees(1, 2), FORMS, 1, ('adjacent', 'separated'), False),
+            (trees(2, 1), ('sib', 'sub', 'sys'), 1, ('in-function',), False),
+            (trees(1, 2), ('sib', 'up'), 0, ('in-function',), False),
         ]
     return [
         (trees(4, 1), FORMS, 2, ('adjacent',), True),
@@ -271,6 +283,8 @@ def plan(tier):
         (trees(2, 2), FORMS, 1, ('adjacent',), False),
         (trees(1, 3), FORMS, 1, ('adjacent', 'separated'), False),
         (trees(2, 3), ('sib', 'up'), 1, ('adjacent',), False),
+        (trees(3, 1), FORMS, 1, ('in-function',), False),
+        (trees(2, 2), ('sib', 'up', 'sys'), 1, ('in-function',), False),
     ]
 
 
@@ -283,6 +297,8 @@ def cases(tier):
                 for ri in range(len(ROOTS)):
                     for style in styles:
                         if style == 'separated' and not any(len(c) > 1 for c in all_nodes(tree)):
+                            continue
+                        if style == 'in-function' and not tree:
                             continue
                         earlies = [None]
                         if early and ne:
